@@ -374,7 +374,11 @@ def api_cases(full: bool):
                 return pt.ones(shp, np.dtype(d)), {}
             yield f"ones:{d},{shp}", mko
         for frm, to in (((3,), (2, 3)), ((2, 1), (2, 3)), ((), (2,)),
-                        ((1, 1), (4, 2, 3)), ((2, 3), (2, 3))):
+                        ((1, 1), (4, 2, 3)), ((2, 3), (2, 3)),
+                        # (unit axes that stay unit axes)
+                        ((1, 4), (3, 1, 4)), ((1,), (1,)), ((1,), (2, 1)),
+                        ((2, 1, 1), (5, 2, 1, 3)), ((1, 1), (1, 1)),
+                        ((3, 1), (3, 1))):
             def mkb(d=d, frm=frm, to=to):
                 a, av = _arr("a", d, frm)
                 return pt.broadcast_to(a, to), {"a": av}
